@@ -14,7 +14,7 @@ RULE = ('programs = every body tree with <= N operators over the 8 leaves in the
         'clause, caller with alternatives, a dynamic fact) and the meta-call programs of C09 over o/1, m/1, r/2; for '
         'each program EVERY non-empty subset of the fact predicates it uses (z/0 o/1 m/1 k/1, r/2) is re-implemented as a '
         'registered Python generator function x registration style {inferred, explicit, variadic arity} x yielded '
-        'value {False, True} [x a dynamic fact next to the Python predicate]; answers compared with RefProlog run on '
+        'value {False, True} [x a dynamic fact next to the Python predicate] [x on a fresh engine / on an engine that was queried before and had an earlier version of the predicates registered]; answers compared with RefProlog run on '
         'the all-Prolog program. For every program/subset additionally one run per event j (entry or resumption of a '
         'Python predicate) in which the predicate raises a fresh exception object at its j-th event: the consumer must '
         'receive that very object. states = distinct answer sequences; transitions = next() calls; non-trivial = at '
@@ -108,7 +108,7 @@ def used_preds(clauses):
     return sorted(used)
 
 
-def run_variant(pytext, clauses, goal, pykeys, style, yv, dyn, exp, fire=None):
+def run_variant(pytext, clauses, goal, pykeys, style, yv, dyn, exp, fire=None, warm=False):
     """one engine: support predicates not in pykeys come from compiled Prolog, the others are
     registered Python functions.  -> (answers, status, exc, events)"""
     yp = impl.YP()
@@ -120,6 +120,16 @@ def run_variant(pytext, clauses, goal, pykeys, style, yv, dyn, exp, fire=None):
         yp.load_script_from_string(compile_cached(show_program(rest)), fn=impl.SCRIPT_FN)
     yp.load_script_from_string(pytext, fn=impl.SCRIPT_FN)
     events = {'count': 0, 'fire': fire, 'exc': None, 'args': []}
+    if warm:
+        # the engine has already been asked (the predicates were still unknown), then an earlier
+        # version of each Python predicate was registered and asked, and only then the final one
+        # is registered: a later registration replaces what calls resolve to from then on
+        _probe(yp, goal)
+        for key in pykeys:
+            def old_version(*args):
+                return iter(())
+            yp.register_function(key[0], old_version, -1 if style == 'variadic' else key[1])
+        _probe(yp, goal)
     for key in pykeys:
         fn, ar = make_py(yp, key, style, yv, events)
         yp.register_function(key[0], fn, ar) if ar is not None else yp.register_function(key[0], fn)
@@ -130,6 +140,18 @@ def run_variant(pytext, clauses, goal, pykeys, style, yv, dyn, exp, fire=None):
     with watchdog():
         got, status, exc = impl.run_query(yp, goal, obs, cap=cap)
     return got, status, exc, events
+
+
+def _probe(yp, goal):
+    vm = {}
+    q = yp.query(goal[1], [impl.to_engine(yp, x, vm) for x in (goal[2] if goal[0] == 'f' else ())])
+    try:
+        for i, _ in enumerate(q):
+            if i > 20:
+                break
+    except Exception:  # noqa: BLE001 - the probe's own outcome is not judged here
+        pass
+    q.close()
 
 
 def check_program(acc, index, clauses, goal, dyn_extra, label):
@@ -196,6 +218,21 @@ def check_program(acc, index, clauses, goal, dyn_extra, label):
                 if exp:
                     acc.n['nontrivial'] += 1
                 acc.outcome(tuple(exp))
+                # the same on an engine that was queried before the registration and on which an
+                # earlier version of the predicates had been registered
+                try:
+                    gotw, stw, excw, _ = run_variant(pytext, clauses, goal, sub, style, yv, dyn_extra, exp, warm=True)
+                except Exception as e:  # noqa: BLE001
+                    gotw, stw, excw = [], 'exception', e
+                acc.n['evaluations'] += 1
+                acc.n['validated'] += 1
+                acc.n['transitions'] += len(gotw) + 3
+                if anon_ix:
+                    gotw = [anonymize(a, anon_ix) for a in gotw]
+                if stw == 'exception' or gotw != exp:
+                    acc.violation('answers-differ-after-re-registration', index, dict(case, warm=True),
+                                  '%spython predicates %s (%s arity, yield %s) registered AFTER the engine had been queried and an earlier version had been registered: query %s\n  all-Prolog (reference): %s\n  observed: %s %s'
+                                  % (text, list(sub), style, yv, show_term(goal), show_answers(exp), show_answers(gotw), excw or ''), key=key + '|warm')
                 # exception at every event of the python predicates (one style is enough to
                 # enumerate the event points; all styles share the same event sequence)
                 if style == 'inferred' and yv is False:
